@@ -193,8 +193,21 @@ def check_unary(a):
 
 
 def check_relativity(a, o):
-    """relativize / derelativize / choose_relativity of name a against absolute origin o."""
+    """relativize / derelativize / choose_relativity of name a against absolute origin o
+    (o == () is the degenerate empty origin: both operations must be the identity)."""
     a, o = tuple(a), tuple(o)
+    if o == ():
+        A, E = dns.name.Name(a), dns.name.empty
+        probs = []
+        try:
+            r = A.relativize(E)
+            if r.labels != a:
+                probs.append(("C06/relativize/empty-origin-changed-name", "%s.relativize(empty) gave %r" % (show(a), r.labels)))
+            if r.derelativize(E).labels != a:
+                probs.append(("C06/derelativize-after-relativize/empty-origin", "%s not restored" % show(a)))
+        except Exception as e:
+            probs.append(("C06/relativity/" + crash_sig(e), "%s empty origin: %s: %s" % (show(a), type(e).__name__, e)))
+        return probs, "empty-origin"
     A, O = dns.name.Name(a), dns.name.Name(o)
     probs = []
     what = "%s origin %s" % (show(a), show(o))
@@ -476,7 +489,7 @@ def w_unary(task, col):
         col.outcome("unary:ok" if not probs else "unary:" + probs[0][0])
         for s, w in probs:
             col.violation(s, w, {"mode": "unary", "a": list(a)})
-        for o in ORIGINS:
+        for o in ORIGINS + [()]:
             probs, out = check_relativity(a, o)
             col.count("evaluations")
             col.count("relativity")
